@@ -10,7 +10,7 @@ Decided is one necessary structural condition per anchored mechanism, for every 
   E21 N4     nested diagonal entries are exchanged by a permutation, never mixed (generators stay q-homogeneous);
   E10 R6     the (-c) -> ring dispatch runs the documented ring type for each of Z, Q, F2, F3.
 """
-import e23_bigrade, e21_snfscan, e10_cli, e19_homcalc
+import e23_bigrade, e21_snfscan, e10_cli, e19_homcalc, e1_ratio
 
 LEVEL = 'other'
 EXPLANATION = ('Static analysis (MIR path summaries with loop havoc; CFG reachability; expanded dispatch table) of the four mechanisms the '
@@ -35,4 +35,7 @@ def run(ctx, rep):
     e19_homcalc.run(facts, rep)
     for cmd in ('kh', 'ckh'):
         e10_cli.check_dispatch_table(facts, rep, cmd, 'i64')
+    rep.rule('E1-ratio', 'the field Q the ranks are compared over: every Ratio operation returns the lowest-terms representative (E1 R0-R5); a product that is off by a common factor makes a cancellation d - c a^-1 b fail and changes the Q ranks only')
+    e1_ratio.run(facts, rep)
+    e1_ratio.check_mul_cancels_first(facts, rep)
     rep.callsites += sum(len(facts.bodies[k].calls()) for k in rep.functions if k in facts.bodies)
